@@ -765,14 +765,22 @@ func vMsUpdRun(t *testing.T) {
 	}
 	// key records whose last reference was dropped by a park goroutine are removed by a deferred pass (checkWaitRemoveLockManager, one of
 	// the parked background loops): run it the way Close does
-	v.db.managerGlocks[0].Lock()
-	v.db.flushWaitRemoveLockManagerQueue(0)
-	v.db.managerGlocks[0].Unlock()
 	left := map[string][]string{}
-	for _, c := range done {
-		if v.keySnap(c.key).exists {
-			left[c.place] = append(left[c.place], c.what)
+	for try := 0; try < 15; try++ {
+		// (a park goroutine that has just taken its queue off the table may still be on its way through doExpried: look again)
+		v.db.managerGlocks[0].Lock()
+		v.db.flushWaitRemoveLockManagerQueue(0)
+		v.db.managerGlocks[0].Unlock()
+		left = map[string][]string{}
+		for _, c := range done {
+			if v.keySnap(c.key).exists {
+				left[c.place] = append(left[c.place], c.what)
+			}
 		}
+		if len(left) == 0 && v.counters().KeyCount == kc0 {
+			break
+		}
+		time.Sleep(200 * time.Millisecond)
 	}
 	for place, ws := range left {
 		out.monitor("C17:key-record-left:after-update:"+place, fmt.Sprintf("%d key record(s) still exist after the hold has ended or was released, the parks are over and 20 s of server time passed; first: %s", len(ws), ws[0]), map[string]interface{}{"mode": "msupd", "seed": seed})
